@@ -135,6 +135,7 @@ Definition x_assert_same : N := 8. (* TypeAssertExpr: types.Identical(TypeOf(e),
 Definition x_multiline : N := 9.   (* FieldList: Opening and Closing are on different lines *)
 Definition x_var_nonstruct : N := 10. (* Ident: ObjectOf(id) is a *types.Var whose type's underlying type is not a struct *)
 Definition x_fn_same_type : N := 11.  (* FuncLit whose body is `return f(...)`: types.Identical(TypeOf(lit), TypeOf(f)) *)
+Definition x_isnil : N := 12.        (* Expr: TypesInfo.Types[e].IsNil(): the predeclared nil *)
 
 Inductive node := Nd (t : tag) (pos : N) (s : string) (a b : N) (f : facts) (kids : nodes)
 with nodes := NN | NC (n : node) (r : nodes).
@@ -321,7 +322,13 @@ Fixpoint recv_shape (e : node) : bool :=
 Definition wf_node (n : node) : bool :=
   let ks := kids n in
   match ntag n with
-  | TIdent | TBasicLit => match ks with [] => true | _ => false end
+  | TIdent =>
+      match ks with
+      | [] => (* only the predeclared nil is a nil value *)
+          if N.testbit (f_ext (nfacts n)) x_isnil then okind_eqb (f_obj (nfacts n)) ONil else true
+      | _ => false
+      end
+  | TBasicLit => match ks with [] => true | _ => false end
   | TParen | TStar | TUnary | TExprStmt => match ks with [x] => is_expr x | _ => false end
   | TBinary | TIndex => match ks with [x; y] => is_expr x && is_expr y | _ => false end
   | TSelector => match ks with [x; sel] => is_expr x && is_tag TIdent sel | _ => false end
